@@ -1,8 +1,9 @@
 """C07 Channels deliver every value exactly once, in order, within capacity."""
 from hypothesis import strategies as st
 
-from .. import kpn
+from .. import kpn, kpn_many
 from .. import worker as W
+from ..lang import printer
 from ..oracle import crash_failure
 from ..runner import Outcome
 from . import kpncommon as K
@@ -21,7 +22,13 @@ RULE = ("Hypothesis draws a process network as a history of operations: 1-5 laun
         "receive of v has a smaller clock than the return of the send of v; after close buffered values are still "
         "delivered, then nil; sends to a closed channel raise. Debug and release workers, every 8th case under "
         "collect-at-every-allocation. Non-trivial: >= 2 fibers exchanged >= 3 values and the model saw >= 1 blocked "
-        "operation; distinct by program text.")
+        "operation; distinct by program text. Mode M (one case in four): 1-3 senders and 1-3 receivers share ONE channel "
+        "(sync or capacity 1/2/3/5), 1-4 values per sender, launch order drawn, launches optionally from a starter "
+        "fiber, channel captured or passed as argument, values plain or boxed in fresh lists; the sender that finishes "
+        "last (or main) closes the channel and the receivers drain it until nil. The network is not determinate, so "
+        "the oracle is a validity predicate over the receivers' logs: every logged value was sent, none twice, one "
+        "sender's values in sending order within a log, len() <= capacity(), and at completion the union of the logs "
+        "is exactly the set sent. Non-trivial there: >= 3 fibers and >= 3 values.")
 ASSUMPTIONS = ["single-writer single-reader networks are determinate, so the model does not need the schedule",
                "the fiber scheduler is deterministic and not steered: scheduler states are reached by varying the "
                "program (launch order, capacities, operation order)"]
@@ -38,7 +45,8 @@ def cases(tier):
 
 
 def strategy(hazards):
-    return st.tuples(st.one_of(kpn.network(False, hazards), kpn.network(False, hazards), kpn.network(True, hazards)), st.integers(0, 7))
+    return st.tuples(st.one_of(kpn.network(False, hazards), kpn.network(False, hazards), kpn.network(True, hazards),
+                               kpn_many.many_network(hazards)), st.integers(0, 7))
 
 
 def labels_of(net, m):
@@ -53,8 +61,33 @@ def labels_of(net, m):
     return labels
 
 
+def run_many(prop, case, ctx, judge):
+    """Mode M network: run on both builds, judge with the validity predicate `judge`."""
+    net, sel = case
+    src = printer.to_source(kpn_many.build_program(net))[0]
+    fail = None
+    runs = 0
+    for variant in ("dbg", "rel"):
+        r = ctx.worker(variant).run(src, schedule=W.EVERY_ALLOC if (sel == 0 and variant == "dbg") else W.NATURAL,
+                                    budget=kpn_many.budget(net))
+        runs += 1
+        if r.get("outcome") != "budget":
+            fail = crash_failure(prop, r, src, variant)
+        if fail is None:
+            fail = judge(prop, net, r, src)
+        if fail is not None:
+            break
+    nontrivial = net["ns"] + net["nr"] >= 3 and sum(net["counts"]) >= 3
+    labels = ["mode:M", "model:complete", "closer:" + net["closer"]] + (["has-sync"] if net["cap"] == 0 else []) + \
+        ["has-close"] + (["boxed"] if net.get("boxed") else []) + (["nontrivial"] if nontrivial else [])
+    return Outcome(key=src, nontrivial=nontrivial, labels=labels, failure=fail,
+                   sample={k: net[k] for k in ("ns", "nr", "cap", "counts", "order", "closer")}, runs=runs)
+
+
 def run_case(case, ctx):
     net, sel = case
+    if net.get("mode") == "M":
+        return run_many(PROPERTY, case, ctx, kpn_many.safety_failure)
     fail = None
     runs = 0
     ev = None
@@ -68,6 +101,6 @@ def run_case(case, ctx):
             break
     m = ev["model"]
     nontrivial = len(net["scripts"]) >= 2 and m.exchanged >= 3 and m.blocked_ops >= 1
-    labels = labels_of(net, m) + (["nontrivial"] if nontrivial else [])
+    labels = labels_of(net, m) + (["nontrivial"] if nontrivial else []) + (["boxed"] if net.get("boxed") else [])
     return Outcome(key=ev["src"], nontrivial=nontrivial, labels=labels, failure=fail,
                    sample={"caps": net["caps"], "scripts": [[list(o) for o in s] for s in net["scripts"]]}, runs=runs)
